@@ -39,7 +39,12 @@ pub(crate) fn fill_buffer_bytes<R: std::io::BufRead>(
 ) -> std::io::Result<usize> {
     let mut read_total = 0;
     while buffer.remaining() < len {
-        let source_buffer = source.fill_buf()?;
+        let source_buffer = match source.fill_buf() {
+            Ok(source_buffer) => source_buffer,
+            // retry, the callers' bookkeeping would miss the bytes already moved to `buffer` otherwise
+            Err(e) if e.kind() == std::io::ErrorKind::Interrupted => continue,
+            Err(e) => return Err(e),
+        };
         let read = source_buffer.len().min(len - buffer.remaining());
         buffer.put_slice(&source_buffer[..read]);
         read_total += read;
